@@ -48,11 +48,16 @@ fn cursor_signature(dbg: &str) -> String {
 
 /// Run a history and, in the final state, also Display, Debug, clone and serialize.
 fn run_total(cfg: &Cfg, ops: &[Op], sigs: Option<&mut BTreeSet<String>>) -> Result<(), (usize, &'static str)> {
+    run_total_on(cfg, ops, sigs, false)
+}
+
+/// `default_instance`: the instance comes from `Default::default()` instead of `new(..)`
+fn run_total_on(cfg: &Cfg, ops: &[Op], sigs: Option<&mut BTreeSet<String>>, default_instance: bool) -> Result<(), (usize, &'static str)> {
     let mut step = 0usize;
     let mut phase: &'static str = "next/reset";
     let mut sig = None;
     let r = std::panic::catch_unwind(std::panic::AssertUnwindSafe(|| {
-        let mut s = make(cfg);
+        let mut s = if default_instance { crate::subjects::make_default(cfg.kind) } else { make(cfg) };
         for op in ops {
             s.apply(op);
             step += 1;
@@ -215,6 +220,41 @@ pub fn run(ctx: &Ctx) -> CheckResult {
         out
     });
     res.absorb(merge_jobs(outs));
+
+    // (a') the same on instances obtained from Default::default() (reset / Debug / clone / serialize before
+    // the first input included: the empty sequence and sequences starting with reset are part of the space)
+    if !res.out.failed() {
+        let kinds: Vec<Kind> = ALL_KINDS.to_vec();
+        let d2 = depth.min(4);
+        let outs = par_run(ctx, &kinds, |_, &k| {
+            let mut out = JobOut::default();
+            let cfg = k.default_cfg();
+            let alpha = special_alphabet(k);
+            let mut ops: Vec<Op> = vec![];
+            // the empty history first
+            if let Err((step, phase)) = run_total_on(&cfg, &[], None, true) {
+                report(&cfg, &[], step, phase, &mut out, format!("instance from {}::default(), before any input", k.rust_type()));
+                return out;
+            }
+            for_each_seq(alpha.len(), None, d2, |seq| {
+                ops.clear();
+                ops.extend(seq.iter().map(|&a| alpha[a as usize]));
+                out.stats.states += 1;
+                out.stats.traces += 1;
+                out.stats.transitions += ops.len() as u64 + 4;
+                out.stats.evaluations += 1;
+                match run_total_on(&cfg, &ops, None, true) {
+                    Ok(()) => true,
+                    Err((step, phase)) => {
+                        report(&cfg, &ops, step, phase, &mut out, format!("instance from {}::default()", k.rust_type()));
+                        false
+                    }
+                }
+            });
+            out
+        });
+        res.absorb(merge_jobs(outs));
+    }
 
     // (b)+(c) every period 1..=64 (+ sampled large ones): default stream with k deviations at every position
     let mut cursor_rows = vec![];
